@@ -51,7 +51,7 @@ class LT:
 
 
 class Sched:
-    def __init__(self, ch, line_level=False, horizon=10_000.0, max_steps=200_000, line_filter=None):
+    def __init__(self, ch, line_level=False, horizon=10_000.0, max_steps=200_000, line_filter=None, stall=False, preempt_cost=2, tie_cost=1):
         self.ch = ch
         self.now = 0.0
         self.threads = []
@@ -69,6 +69,12 @@ class Sched:
         self.line_points = 0
         self.leaked = 0
         self.in_sched = False
+        # stall=True: when the running thread blocks while other threads are runnable, one more alternative (cost 1) lets virtual time pass
+        # with those threads still parked - a thread that is merely slow (descheduled by the OS) while the others wait on the clock
+        self.stall = stall
+        self.stalls = 0
+        self.preempt_cost = preempt_cost
+        self.tie_cost = tie_cost
 
     # ------------------------------------------------------------------ time
     def add_event(self, t):
@@ -76,6 +82,11 @@ class Sched:
             i = bisect.bisect_left(self.events, t)
             if i >= len(self.events) or self.events[i] != t:
                 self.events.insert(i, t)
+
+    def _has_future(self):
+        if any(t.state == "blocked" and t.deadline is not None and t.deadline > self.now for t in self.threads):
+            return True
+        return any(e > self.now for e in self.events)
 
     def _advance(self):
         cands = [t.deadline for t in self.threads if t.state == "blocked" and t.deadline is not None]
@@ -123,12 +134,27 @@ class Sched:
         me = self.current
         while True:
             others = [t for t in self.threads if t is not me and self._enabled(t)]
-            if me_enabled:
+            if me_enabled and me.state == "runnable":
+                # switching away from a RUNNING thread is a preemption
                 cand = [me] + others
-                costs = (0,) + (1,) * len(others)
+                costs = (0,) + (self.preempt_cost,) * len(others)
+            elif me_enabled:
+                # a thread that was waiting and becomes enabled together with others (same virtual instant, or a lock released to several
+                # waiters) has no priority: canonical order = ascending thread id (the loop thread first), every other order costs tie_cost
+                cand = sorted([me] + others, key=lambda t: t.id)
+                costs = (0,) + (self.tie_cost,) * len(others)
             else:
-                cand = others
-                costs = (0,) * len(others)
+                cand = sorted(others, key=lambda t: t.id)
+                costs = (0,) + (self.tie_cost,) * (len(cand) - 1) if cand else ()
+                if self.stall and cand and me.state == "blocked" and self._has_future():
+                    idx = self.ch.choose(len(cand) + 1, "sched+stall", costs=costs + (1,))
+                    if idx < len(cand):
+                        return cand[idx]
+                    self.stalls += 1
+                    self._advance()
+                    if self._enabled(me):
+                        me_enabled = True
+                    continue
             if cand:
                 if len(cand) == 1:
                     return cand[0]
@@ -176,6 +202,8 @@ class Sched:
         self.check()
         self._step()
         me = self.current
+        if pred():
+            return True  # nothing to wait for: not a scheduling point (callers put a point() before a potentially blocking operation)
         if deadline is not None and deadline > self.horizon + self.now:
             deadline = self.now + self.horizon
         was_tracing = self.in_sched
@@ -243,7 +271,8 @@ class Sched:
             while True:
                 cand = [t for t in self.threads if t is not me and self._enabled(t)]
                 if cand:
-                    to = cand[0] if len(cand) == 1 else cand[self.ch.choose(len(cand), "sched-exit", costs=(0,) * len(cand))]
+                    cand.sort(key=lambda t: t.id)
+                    to = cand[0] if len(cand) == 1 else cand[self.ch.choose(len(cand), "sched-exit", costs=(0,) + (self.tie_cost,) * (len(cand) - 1))]
                     break
                 if all(t.state == "done" for t in self.threads):
                     return
